@@ -163,7 +163,12 @@ def run(ctx):
             past = bool_edges(cf, Tf, lambda c_: c_[0] == "call" and c_[1].endswith("PartialOrd::ge") and now(c_[2][0]) and isd(c_[2][1]), True)
             notpast = bool_edges(cf, Tf, lambda c_: c_[0] == "call" and c_[1].endswith("PartialOrd::ge") and now(c_[2][0]) and isd(c_[2][1]), False)
             kinds = []
+            flat = []
             for bb, v in ob_.results:
+                for a_ in M.alts(v):
+                    # (a value computed by a call is classified where that call is made)
+                    flat.append((a_[3] if a_[0] == "call" and len(a_) > 3 and isinstance(a_[3], int) and v[0] == "phi" else bb, a_))
+            for bb, v in flat:
                 if v[0] == "call" and v[1] in ("std::time::Instant::saturating_duration_since",) and isd(v[2][0]) and now(v[2][1]):
                     kinds.append("sat")          # deadline.saturating_duration_since(Instant::now()): zero when already past
                 elif v[0] == "call" and v[1] in ("std::time::Duration::from_secs", "std::time::Duration::from_millis") and const_of(v[2][0]) == 0 and dominated_by_edges(cf, bb, past):
@@ -237,23 +242,24 @@ def run(ctx):
             blocks = {b for b, s in ge if s not in loops[0]}
             # a deadline that could not be represented (None although a timeout was given) is no deadline: the cycle through that edge is the
             # intended 'wait on' and is exempt from the cover
-            is_dl = lambda t_: M.contains(t_, lambda u: u[0] == "call" and u[1] in ("std::option::Option::<T>::and_then", "std::option::Option::<T>::map") and M.noref(u[2][0]) in (("param", 2, pp.local_name(2)), ("local", 2)))
+            # (the deadline: an Option computed from Instant::now() and the payload of the timeout parameter, outside the loop)
+            tparam = lambda u: M.noref(u) in (("param", 2, pp.local_name(2)), ("local", 2))
+            is_dl_add = lambda u: u[0] == "call" and (u[1] == "std::time::Instant::checked_add" or ("Add" in u[1] and "Instant" in u[1])) and len(u) > 3 and u[3] not in loops[0] \
+                and M.contains(u[2][0], lambda w: w[0] == "call" and w[1] == "std::time::Instant::now") \
+                and M.contains(u[2][1], lambda w: w[0] == "downcast" and w[2] == "Some" and tparam(w[1]))
+            is_dl = lambda t_: M.contains(t_, is_dl_add)
             none_dl = set(variant_edges(pp, Tq, is_dl, 0, [0, 1], "std::option::Option<"))
             alle = {(b_, s_) for b_ in pp.live_blocks() for s_ in pp.succs(b_)} - none_dl
             okl = bool(blocks) and not M.sccs(pp, removed=blocks, edges=alle)
             # deadline computed once, before the loop, from the original timeout
-            d0 = [bb for bb, t in pp.calls() if M.callee_str(t["f"]) in ("std::option::Option::<T>::map", "std::option::Option::<T>::and_then") and bb not in loops[0] and Tq.operand(t["args"][1])[0] == "agg"]
+            d0 = [bb for bb, t in pp.calls() if bb not in loops[0] and is_dl_add(("call", M.callee_str(t["f"]), tuple(Tq.operand(a_) for a_ in t["args"]), bb))]
             okl = okl and len(d0) >= 1
             # re-armed timeout = deadline - now
             st = [Tq.rvalue(r) for (bb, si, r) in pp.defs().get(2, []) if r["k"] not in ("partial", "call")]
             okl = okl and any(v[0] == "agg" and v[1][2] == "Some" and v[2][0][0] == "call" and "Sub" in v[2][0][1] for v in st)
         # the deadline of the re-arm loop is computed without a panicking addition as well
-        safe = False
-        for bb_ in (d0 if len(loops) == 1 else []):
-            cl_ = Tq.operand(pp.blocks[bb_]["term"]["args"][1])
-            if cl_[0] == "agg" and cl_[1][0] == "closure" and cl_[1][1] in prog.fns:
-                r_ = M.Terms(prog.fns[cl_[1][1]]).local(0)
-                safe = r_[0] == "call" and r_[1] == "std::time::Instant::checked_add"
+        safe = len(loops) == 1 and bool(d0) and all(M.callee_str(pp.blocks[bb_]["term"]["f"]) == "std::time::Instant::checked_add" for bb_ in d0) and \
+            not [1 for bb_, t_ in pp.calls() if "Add" in M.callee_str(t_["f"]) and "Instant" in M.callee_str(t_["f"])]
         ctx.ob("R04.4", "poll-deadline-addition-cannot-overflow", safe, pp.loc(0),
                "posix::poll computes its own deadline from the remaining time on a later clock reading: `Instant::now() + timeout` there can still overflow "
                "for a limit whose deadline was only just representable; it must be checked_add (None = wait on)")
